@@ -138,6 +138,15 @@ m("replace-range-too-wide", "_change.py", "        range = self.file.asttokens()
 m("strip-bom", "_rewrite_code.py", "        with open(self.filename, \"bw\") as code:\n            code.write(new_code.encode())", "        with open(self.filename, \"bw\") as code:\n            code.write(new_code.lstrip(chr(0xfeff)).encode())", ["C03"], "BOM dropped on rewrite")
 
 
+# ---- C20
+m("no-final-format", "_rewrite_code.py", "        if format_whole_file:\n            new_code = format_code(new_code, self.filename)", "        if format_whole_file and enforce_formatting():\n            new_code = format_code(new_code, self.filename)", ["C20"], "clean files are not re-formatted after the edit")
+m("clean-check-inverted", "_rewrite_code.py", "        format_whole_file = enforce_formatting() or code == format_code(", "        format_whole_file = enforce_formatting() or code != format_code(", ["C20", "C03"], "clean check inverted")
+m("ignore-line-length", "_format.py", '        if "line_length" in config:\n            mode.line_length = int(config["line_length"])', '        pass', ["C20"], "line-length from pyproject ignored")
+m("ignore-magic-comma", "_format.py", '            mode.magic_trailing_comma = not config["skip_magic_trailing_comma"]', '            pass', ["C20"], "skip-magic-trailing-comma ignored")
+m("ignore-preview", "_format.py", '            mode.preview = config["preview"]', '            pass', ["C20"], "preview ignored")
+m("string-normalization-same-sign", "_format.py", '            mode.string_normalization = not config["skip_string_normalization"]', '            mode.string_normalization = config["skip_string_normalization"]', ["C20"], "skip-string-normalization not inverted")
+
+
 def make_copy(mut):
     base = os.environ.get("VERIF_TMP") or ("/dev/shm" if os.path.isdir("/dev/shm") else tempfile.gettempdir())
     d = Path(tempfile.mkdtemp(prefix="mutant-", dir=base))
